@@ -39,17 +39,17 @@ VMODES = {
 
 NUMERIC_FUNCS = {
     # name -> program template with {h} the header that is text on fault lines
-    "add": "@x = add(#a, 1)",
-    "subtract": "@x = subtract(#a, 1)",
-    "multiply": "@x = multiply(#a, 2)",
-    "divide": "@x = divide(add(#a, 0), 2)",
-    "mod": "@x = mod(#a, 2)",
-    "int": "@x = int(#a)",
-    "float": "@x = float(#a)",
-    "sum": "@x = sum(#a)",
-    "gt": "gt(add(#a, 0), -1)",
-    "between": "between(add(#a, 0), -1, 99)",
-    "round": "@x = round(#a)",
+    "add": "@x = add(#0, 1)",
+    "subtract": "@x = subtract(#0, 1)",
+    "multiply": "@x = multiply(#0, 2)",
+    "divide": "@x = divide(add(#0, 0), 2)",
+    "mod": "@x = mod(#0, 2)",
+    "int": "@x = int(#0)",
+    "float": "@x = float(#0)",
+    "sum": "@x = sum(#0)",
+    "gt": "gt(add(#0, 0), -1)",
+    "between": "between(add(#0, 0), -1, 99)",
+    "round": "@x = round(#0)",
 }
 
 
@@ -66,26 +66,26 @@ def build(kind, faults, func=None):
         if kind in ("argtype", "nested", "two-components", "func"):
             rows.append(["zz" if bad else str(ln), "2", "t"])
         elif kind == "rule":
-            # substring()'s 2nd argument must be a positive int: int(#a) < 0 on fault lines
+            # substring()'s 2nd argument must be a positive int: int(#0) < 0 on fault lines
             rows.append(["-1" if bad else "3", "5", "abcdef"])
         elif kind == "pyexc":
-            # mod(#a,#b) with b == 0: ZeroDivisionError inside the function
+            # mod(#0,#1) with b == 0: ZeroDivisionError inside the function
             rows.append([str(ln), "0" if bad else "2", "t"])
         elif kind == "righthand":
             # left side true on every line; right side faults where a is text
             rows.append(["zz" if bad else str(ln), "2", "go"])
     if kind == "argtype":
-        m = "@x = add(#a, 1)"
+        m = "@x = add(#0, 1)"
     elif kind == "rule":
-        m = "@x = substring(#c, int(#a))"
+        m = "@x = substring(#2, int(#0))"
     elif kind == "pyexc":
-        m = "@x = mod(#a, #b)"
+        m = "@x = mod(#0, #1)"
     elif kind == "righthand":
-        m = '#c == "go" -> @y = add(#a, 1)'
+        m = '#2 == "go" -> @y = add(#0, 1)'
     elif kind == "nested":
-        m = "and(yes(), gt(add(#a, 1), 0))"
+        m = "and(yes(), gt(add(#0, 1), 0))"
     elif kind == "two-components":
-        m = "@x = add(#a, 1) @y = subtract(#a, 1)"
+        m = "@x = add(#0, 1) @y = subtract(#0, 1)"
     elif kind == "func":
         m = NUMERIC_FUNCS[func]
     return rows, m
@@ -108,6 +108,10 @@ def cases(tier):
             for pos in POSITIONS:
                 for vm in VMODES:
                     yield {"policy": pol, "kind": kind, "pos": pos, "vmode": vm, "variant": "standalone", "func": None}
+            # no header row: the first offending line is physical line 0
+            for pos in ("first", "two"):
+                for vm in ("none", "no-raise,no-stop"):
+                    yield {"policy": pol, "kind": kind, "pos": pos, "vmode": vm, "variant": "headerless", "func": None}
     if tier == "thorough":
         for pol in subsets:
             for func in NUMERIC_FUNCS:
@@ -132,10 +136,15 @@ def run_case(case, agg):
     pol, kind, pos, vm, variant = case["policy"], case["kind"], case["pos"], case["vmode"], case["variant"]
     faults = POSITIONS[pos]
     rows, m = build(kind, faults, case.get("func"))
-    fname = f"e_{kind}_{case.get('func') or ''}_{pos}.csv"
+    headerless = variant == "headerless"
+    first_line = 0 if headerless else 1
+    if headerless:
+        faults = [f - 1 for f in faults]
+    fname = f"e_{kind}_{case.get('func') or ''}_{pos}_{'nh' if headerless else 'h'}.csv"
     if not os.path.exists(fname):
         with open(fname, "w") as f:
-            f.write("a,b,c\n")
+            if not headerless:
+                f.write("a,b,c\n")
             for r in rows:
                 f.write(",".join(r) + "\n")
     comment = ""
@@ -143,7 +152,7 @@ def run_case(case, agg):
         comment += f"validation-mode: {vm.replace(',', ', ')} "
     if variant == "or-mode":
         comment += "logic-mode: OR "
-    prog = (f"~ {comment}~ " if comment else "") + f"${fname}[1*][{m}]"
+    prog = (f"~ {comment}~ " if comment else "") + f"${fname}[{'*' if headerless else '1*'}][{m}]"
     eff = effective(pol, vm)
     if variant == "via-csvpaths":
         env.write_config(".", csvpath_policy=pol)
@@ -169,7 +178,8 @@ def run_case(case, agg):
         processed.append(f)
         if eff["raise"] or eff["stop"]:
             break
-    cutoff = processed[-1] if (eff["raise"] or eff["stop"]) else NLINES - 1
+    last_line = NLINES - 2 if headerless else NLINES - 1
+    cutoff = processed[-1] if (eff["raise"] or eff["stop"]) else last_line
     problems = []
     want_exc = eff["raise"]
     if (exc is not None) != want_exc:
@@ -198,7 +208,7 @@ def run_case(case, agg):
     elif printed:
         problems.append(("print", f"{printed} lines printed without 'print': {cap.lines[:1]}", "0"))
     considered = [ev["pln"] for ev in rec.lines if ev["considered"]]
-    want_considered = list(range(1, cutoff + 1))
+    want_considered = list(range(first_line, cutoff + 1))
     if considered != want_considered:
         problems.append(("stop", f"lines offered to matcher {considered}", f"{want_considered}"))
     # match decisions per line
